@@ -78,7 +78,7 @@ Definition diag_eqb (a b : diag) : bool :=
   | DRestNotExists, DRestNotExists | DRestParamType, DRestParamType | DRestAmbiguousBody, DRestAmbiguousBody
   | DRestBadPath, DRestBadPath | DRestFewResults, DRestFewResults | DRestManyResults, DRestManyResults
   | DRestSecondToLast, DRestSecondToLast | DRestLast, DRestLast | DRestNamedResults, DRestNamedResults
-  | DRestReturnType, DRestReturnType
+  | DRestReturnType, DRestReturnType | DRestExtract, DRestExtract
   | DMapSrcNotExists, DMapSrcNotExists | DMapDestNotExists, DMapDestNotExists | DMapPtrRecv, DMapPtrRecv
   | DMapWriteParam, DMapWriteParam | DMapDupWrite, DMapDupWrite | DMapReadParam, DMapReadParam
   | DMapDupRead, DMapDupRead
@@ -86,6 +86,15 @@ Definition diag_eqb (a b : diag) : bool :=
   | DCreateTemp, DCreateTemp | DWriteTemp, DWriteTemp | DRename, DRename | DCleanError, DCleanError
   | DOther, DOther => true
   | _, _ => false
+  end.
+
+(* diagnostics the harness cannot tell apart from the output: both print the
+   same usage text *)
+Definition diag_norm (d : diag) : diag :=
+  match d with
+  | DUsageUnknownSub => DUsageNoArgs
+  | DUsageNoTypeNoFile => DUsageNoSubArgs
+  | _ => d
   end.
 
 (* what the model predicts for an input (map order = insertion order, no I/O fault) *)
@@ -115,9 +124,10 @@ Fixpoint list_eqb (a b : list string) : bool :=
    entries.  (On a non-zero exit after a partial write the set of written
    files depends on Go's map iteration order and is not compared.) *)
 Definition obs_agree (m o : obs) : bool :=
-  if o_timeout m || o_timeout o then o_timeout m && o_timeout o
+  if o_timeout m then o_timeout o || o_panic o      (* unbounded recursion: killed by the timeout or by Go's stack limit *)
+  else if o_timeout o then false
   else if o_panic m || o_panic o then o_panic m && o_panic o && Bool.eqb (o_changed m) (o_changed o)
-  else Nat.eqb (o_exit m) (o_exit o) && diag_eqb (o_diag m) (o_diag o) &&
+  else Nat.eqb (o_exit m) (o_exit o) && diag_eqb (diag_norm (o_diag m)) (diag_norm (o_diag o)) &&
        Bool.eqb (o_changed m) (o_changed o) &&
        (negb (Nat.eqb (o_exit m) 0) || list_eqb (o_files m) (o_files o)).
 
